@@ -10,6 +10,8 @@ import try_patch  # noqa
 
 def one(name, checks, tier):
     patch = os.path.join(VERIF, "seeded", name, "patch.diff")
+    if name.endswith(".diff"):
+        patch = os.path.join(VERIF, "refactors", name)
     root, tree = try_patch.scratch_copy(patch)
     res = {}
     try:
@@ -28,12 +30,15 @@ def main():
     ap.add_argument("--checks", default="")
     ap.add_argument("--tier", default="quick")
     ap.add_argument("--jobs", type=int, default=3)
+    ap.add_argument("--refactors", action="store_true", help="run the benign patches in refactors/ instead (all must stay silent)")
     a = ap.parse_args()
     m = json.load(open(os.path.join(VERIF, "MANIFEST.json")))
     checks = [c["property_id"] for c in m["checks"]]
     if a.checks:
         checks = a.checks.split(",")
     names = sorted(n for n in os.listdir(os.path.join(VERIF, "seeded")) if os.path.exists(os.path.join(VERIF, "seeded", n, "patch.diff")))
+    if a.refactors:
+        names = sorted(n for n in os.listdir(os.path.join(VERIF, "refactors")) if n.endswith(".diff"))
     if a.seeds:
         names = [n for n in names if n in a.seeds.split(",")]
     result = {}
